@@ -1,3 +1,126 @@
-(* C19 - fragmentation encoder (statements follow) *)
+(* C19 - the fragmentation encoder is systematic, linear, uses the TS004 parity
+   matrix; recoverability; invalid sizes are errors; the retry loop terminates.
+   Statement file: each theorem is closed by [exact] of a lemma proved in
+   theories/App, followed by Print Assumptions.
+
+   Vocabulary: [encode data size red] models fragmentation.Encode (App/FragEncode.v,
+   fuel FUEL = 64 for the PRBS retry loop, [encode_with fuel] the same with explicit
+   fuel); [valid data size] := 0 < size and size divides len(data);
+   [spec_encode], [spec_matrix_line], [spec_parity_lines], [spec_generator] are the
+   TS004 transcription (App/FragSpec.v); [chunks n k data] the n uncoded fragments of
+   k bytes; [comb k l rows] the XOR of the rows selected by the 0/1 vector l;
+   [mat_apply k A rows] = [comb k a rows] for every row a of A; [mat_mul], [identity]
+   over GF(2).  The fragment count is bounded by 65536 where the model is compared
+   with TS004 (above that encode.go's start value r = 1 << 16 is no longer >= the
+   count; the property's range is 1..300). *)
 From Coq Require Import List NArith ZArith Bool.
-From LW Require Import Base.Outcome Base.Bytes.
+From LW Require Import Base.Outcome Base.Bytes App.FragEncode App.FragSpec App.FragLinearProofs
+     App.FragEncodeProofs.
+Import ListNotations.
+Open Scope N_scope.
+
+(* the model returns exactly the fragments TS004 defines, for every valid input
+   (OutOfFuel exactly when the specification's while loop exceeds the same bound) *)
+Theorem C19_matches_TS004 : forall fuel data size red, valid data size ->
+  N.of_nat (length data / Z.to_nat size) <= 65536 ->
+  encode_with fuel data size red =
+  match spec_encode fuel data (Z.to_nat size) (Z.to_nat red) with
+  | Some fr => Ok fr
+  | None => OutOfFuel
+  end.
+Proof. exact encode_spec. Qed.
+Print Assumptions C19_matches_TS004.
+
+(* systematic: the first n fragments are the data rows in order (their
+   concatenation is the block), followed by [red] parity fragments, parity
+   fragment y being the XOR of the data rows selected by matrix_line(y+1, n) *)
+Theorem C19_systematic_parity : forall fuel data size red frags, valid data size ->
+  N.of_nat (length data / Z.to_nat size) <= 65536 ->
+  encode_with fuel data size red = Ok frags ->
+  let k := Z.to_nat size in
+  let n := (length data / k)%nat in
+  exists lines,
+    spec_parity_lines fuel (Z.to_nat red) 0 (N.of_nat n) = Some lines
+    /\ length lines = Z.to_nat red
+    /\ frags = chunks n k data ++ map (fun l => comb k l (chunks n k data)) lines
+    /\ firstn n frags = chunks n k data
+    /\ concat (firstn n frags) = data.
+Proof. exact encode_systematic. Qed.
+Print Assumptions C19_systematic_parity.
+
+(* linear over XOR *)
+Theorem C19_linear : forall fuel d1 d2 size red fr1 fr2,
+  length d1 = length d2 -> valid d1 size -> N.of_nat (length d1 / Z.to_nat size) <= 65536 ->
+  encode_with fuel d1 size red = Ok fr1 -> encode_with fuel d2 size red = Ok fr2 ->
+  encode_with fuel (xor_bytes d1 d2) size red = Ok (xor_rows fr1 fr2).
+Proof. exact encode_linear. Qed.
+Print Assumptions C19_linear.
+
+(* recoverability: for any subset [kept] of the fragments whose generator rows
+   have a left inverse T over GF(2) (full rank), T applied to the received
+   fragments is the list of data rows, whose concatenation is the block *)
+Theorem C19_recover : forall fuel data size red frags G kept T, valid data size ->
+  N.of_nat (length data / Z.to_nat size) <= 65536 ->
+  encode_with fuel data size red = Ok frags ->
+  let k := Z.to_nat size in
+  let n := (length data / k)%nat in
+  spec_generator fuel n (Z.to_nat red) = Some G ->
+  Forall (fun i => (i < n + Z.to_nat red)%nat) kept ->
+  mat_mul n T (select kept G []) = identity n ->
+  mat_apply k T (select kept frags []) = chunks n k data
+  /\ concat (mat_apply k T (select kept frags [])) = data.
+Proof. exact encode_recover. Qed.
+Print Assumptions C19_recover.
+
+(* invalid sizes (zero, negative, non-dividing) are errors ... *)
+Theorem C19_invalid_size_is_error : forall fuel data size red, ~ valid data size ->
+  encode_with fuel data size red = Err.
+Proof. exact encode_invalid. Qed.
+Print Assumptions C19_invalid_size_is_error.
+
+(* ... and no input at all makes the encoder panic (after fix 9813ac2) *)
+Theorem C19_no_panic : forall fuel data size red, encode_with fuel data size red <> Panic.
+Proof. exact encode_no_panic. Qed.
+Print Assumptions C19_no_panic.
+
+(* termination of the PRBS retry loop.  Not a power of two: one PRBS step per
+   coefficient always suffices, for every count and parity index *)
+Theorem C19_one_step_when_not_power_of_two : forall fuel n M, spec_pow2 M = false ->
+  spec_matrix_line (S fuel) n M <> None.
+Proof. exact line_terminates_not_pow2. Qed.
+Print Assumptions C19_one_step_when_not_power_of_two.
+
+(* all counts 1..300 (the nine powers of two by evaluation) and parity indices
+   1..100: RETRY_BOUND = 8 steps per coefficient suffice *)
+Theorem C19_retry_bound : forall n M, M <= 300 -> 1 <= n <= 100 ->
+  spec_matrix_line RETRY_BOUND n M <> None.
+Proof. exact line_terminates. Qed.
+Print Assumptions C19_retry_bound.
+
+Theorem C19_terminates : forall data size red, valid data size ->
+  N.of_nat (length data / Z.to_nat size) <= 300 -> (red <= 100)%Z ->
+  exists frags, encode data size red = Ok frags.
+Proof. exact encode_terminates. Qed.
+Print Assumptions C19_terminates.
+
+Theorem C19_terminates_not_power_of_two : forall data size red, valid data size ->
+  N.of_nat (length data / Z.to_nat size) <= 65536 ->
+  spec_pow2 (N.of_nat (length data / Z.to_nat size)) = false ->
+  exists frags, encode data size red = Ok frags.
+Proof. exact encode_terminates_not_pow2. Qed.
+Print Assumptions C19_terminates_not_power_of_two.
+
+(* non-vacuity: a block of four 2-byte rows with three parity fragments; the
+   fragments {parity 1, row 1, row 3, row 0, parity 3} have full rank and the
+   left inverse computed by Gaussian elimination recovers the block *)
+Example C19_example :
+  valid [1; 2; 3; 4; 5; 6; 7; 8] 2
+  /\ encode [1; 2; 3; 4; 5; 6; 7; 8] 2 3 = Ok [[1; 2]; [3; 4]; [5; 6]; [7; 8]; [4; 4]; [4; 4]; [4; 12]]
+  /\ (exists G T, spec_generator FUEL 4 3 = Some G
+        /\ left_inverse 4 (select [4; 1; 3; 0; 6]%nat G []) = Some T
+        /\ mat_mul 4 T (select [4; 1; 3; 0; 6]%nat G []) = identity 4)
+  /\ encode [1; 2; 3; 4] 0 1 = Err /\ encode [1; 2; 3; 4] (-2) 1 = Err /\ encode [1; 2; 3; 4] 3 1 = Err.
+Proof.
+  split; [split; [reflexivity|reflexivity]|]. split; [reflexivity|]. split; [|repeat split].
+  eexists. eexists. split; [vm_compute; reflexivity|]. split; vm_compute; reflexivity.
+Qed.
